@@ -82,7 +82,7 @@ def run(ctx: Ctx) -> None:
         "accepted plan is exported and decided by the Lean planOK (closed, acyclic, disjoint non-empty outputs) and run under a watchdog in SYNC and "
         "THREADING; non-trivial = plan has a JOIN or TFS step or >=2 independent FG steps"
     )
-    nreq = ctx.budget(50, 1200)
+    nreq = ctx.budget(120, 2500)
     nprep = 3 if ctx.quick else 6
     specs = []
     for k in range(nreq):
